@@ -15,12 +15,12 @@ TECHNIQUE = "exhaustive request enumeration from app.url_map with status + state
 RULE = ("every rule x method of the live url_map (HEAD included, automatic OPTIONS judged on 'serves nothing, changes nothing') x instance id in "
         "{live, dead, malformed, externalised} x body in {well-formed superset body, none} x 18 credential shapes x server state in "
         "{no instances, live session, locked session, externalised instance}; control group: the same requests with the exact token must not "
-        "be refused by the decorator. distinct_nontrivial = distinct (rule, method, credential class) triples refused on a server state in "
+        "be refused by the decorator, and the identical request repeated straight after it with 4 credential shapes is refused again. distinct_nontrivial = distinct (rule, method, credential class) triples refused on a server state in "
         "which the same request with the token is served (2xx).")
 ASSUMPTIONS = ["headers that contain the exact token as a whitespace-delimited word (e.g. 'Basic <token>', 'Bearer  <token>') are recorded, not judged: they do present the token",
                "'changes nothing' is decided on the enumerated fingerprint; the log file is outside it",
                "Flask test client, not a socket server"]
-REQUIRED = {"requests_refused": 3000, "fingerprint_comparisons": 3000, "control_served": 10, "rules_enumerated": 15}
+REQUIRED = {"refused_after_authorised": 500, "requests_refused": 3000, "fingerprint_comparisons": 3000, "control_served": 10, "rules_enumerated": 15}
 BUDGET_S = {"quick": 110, "thorough": 900}
 TOKEN = "Tok3n-abc.DEF"
 PUBLIC = {"/", "/healthy", "/metrics", "/full-metrics"}
@@ -175,6 +175,35 @@ def run_case(case):
                         for cname, _h in credentials():
                             if not cname.startswith("EXEMPT"):
                                 nts.append("%s|%s|%s" % (rule, method, cname))
+                    # the identical request straight after the authorised one (anything the server remembers from serving it -
+                    # a response cache, a restored instance, an open session - must not serve the next caller)
+                    for cname, header in credentials():
+                        if cname not in ("absent", "wrong", "prefix", "scheme-only"):
+                            continue
+                        headers = {} if header is None else {"Authorization": header}
+                        before = srv.fingerprint(app, sd)
+                        clock.advance(seconds=1)
+                        kw = dict(headers=headers)
+                        if body:
+                            kw["json"] = superset_body()
+                        try:
+                            resp = c.open(path, method=method, **kw)
+                            data = resp.get_data()
+                            st2 = resp.status_code
+                        except Exception as e:
+                            st2, data = 599, repr(e).encode()[:200]
+                        d = srv.diff_fp(before, srv.fingerprint(app, sd))
+                        counters["fingerprint_comparisons"] = counters.get("fingerprint_comparisons", 0) + 1
+                        if st2 < 400:
+                            w = dict(kind="served-without-token-after-authorised-request", rule=rule, method=method, path=path, credential=cname, status=st2,
+                                     body=data[:120].decode("latin1"), state=case["state"], with_body=bool(body), authorised_status=status)
+                            break
+                        if d:
+                            w = dict(kind="state-changed-by-refused-request", rule=rule, method=method, path=path, credential=cname, status=st2, changed=d, state=case["state"], after_authorised=True)
+                            break
+                        counters["refused_after_authorised"] = counters.get("refused_after_authorised", 0) + 1
+                    if w:
+                        break
                 # the public endpoints stay public
                 for p in PUBLIC:
                     if c.get(p).status_code != 200:
